@@ -23,7 +23,8 @@ from harness.common import VERIF, enc, run_driver
 from insights.core import dr, filters, plugins, spec_factory
 from insights.core.filters import add_filter, get_filters, apply_filters
 from insights.core.spec_factory import (SpecSet, RegistryPoint, simple_file, simple_command, first_of, glob_file, first_file,
-                                        foreach_collect, foreach_execute,
+                                        foreach_collect, foreach_execute, command_with_args, head,
+                                        CommandOutputProvider, ContainerCommandProvider, ContainerFileProvider, ContentProvider,
                                         TextFileProvider)
 from insights.core.plugins import datasource, parser, combiner
 from insights.core.context import HostContext, HostArchiveContext, SerializedArchiveContext
@@ -471,6 +472,16 @@ class HistoryRun(object):
                 self.tags.append("build:" + res.split("\t")[0] + (":host" if host else ":archive"))
                 self.lines.append("build\t%d\t%d" % (1 if host else 0, c))
                 self.impl.append(res)
+                # the same datasource behind a COMMAND provider: one rule for all provider kinds
+                try:
+                    cp = CommandOutputProvider("/bin/true", ctx, ds=comp)
+                    res2 = "ok\t%d\t%s" % (1 if cp._filterable else 0, show_allow(cp._filters))
+                except NoFilterException:
+                    res2 = "nofilter"
+                self.lines.append("build\t%d\t%d" % (1 if host else 0, c))
+                self.impl.append(res2)
+                if res2 != res:
+                    self.fail.append(("file provider and command provider of the same datasource disagree: %s vs %s" % (res.replace("\t", " "), res2.replace("\t", " ")), step))
                 # oracle: a filterable spec (some registry point it feeds is filterable) without filters
                 # is not collected on a host; and it is refused only then
                 want = self._expected(c, log, enabled)
@@ -1407,6 +1418,220 @@ def run_hydrate_case(rig, c):
     return impl_out, model, fails, tags
 
 
+# =========================================================================== (f) nested command datasources on a host
+
+NEST_SHAPES = ["direct", "first_cf", "first_fc", "nested", "head_fexec", "first_cwa"]
+
+
+def gen_nested_case(rng):
+    toks = rng.sample(["a", "b", "x", "-x", "ab", " ", ".", "foo"], 4)
+
+    def lines():
+        return ["".join(rng.choice(toks) for _ in range(rng.choice([1, 1, 2, 3]))) for _ in range(rng.choice([2, 3, 4, 6]))]
+    return {"kind": "nested", "shape": rng.choice(NEST_SHAPES), "filterable": rng.random() < 0.85,
+            "where": rng.choice(["none", "none", "spec", "impl", "parser"]),
+            "keys": [[rng.choice(toks), rng.choice([1, 3, 10000])] for _ in range(rng.choice([1, 2]))],
+            "data": [lines() for _ in range(3)], "file_present": rng.random() < 0.6}
+
+
+def run_nested_case(rig, c):
+    """a filterable registry point implemented by command datasources one or more levels below the bound object,
+    evaluated by dr.run under a HostContext; commands leave a marker when they really run"""
+    tag = fresh("n")
+    root = os.path.join(rig.dir, "nh" + tag)
+    os.makedirs(root)
+    script = os.path.join(root, "runcat.sh")
+    with open(script, "w") as f:
+        f.write('#!/bin/sh\n: > "$1.ran"\ncat "$1"\n')
+    podman = os.path.join(root, "podman")
+    with open(podman, "w") as f:
+        f.write('#!/bin/sh\nshift 2\nexec "$@"\n')
+    os.chmod(script, 0o755)
+    os.chmod(podman, 0o755)
+    dfile = []
+    for i, ls in enumerate(c["data"]):
+        dfile.append(os.path.join(root, "d%d.txt" % i))
+        with open(dfile[i], "w", encoding="utf-8") as f:
+            f.write("".join(l + "\n" for l in ls))
+    if c["file_present"]:
+        with open(os.path.join(root, "alt.txt"), "w", encoding="utf-8") as f:
+            f.write("".join(l + "\n" for l in c["data"][1]))
+    ctx = HostContext(root=root)
+    comps, up, data_of, kind = [], {}, {}, {}
+
+    def reg(obj, k, data=None, parents=()):
+        comps.append(obj)
+        i = len(comps) - 1
+        up[i] = []
+        kind[i] = k
+        data_of[i] = data
+        return i
+
+    def cmd(i):
+        return simple_command("%s %s" % (script, dfile[i]), context=HostContext)
+    pt = RegistryPoint(filterable=c["filterable"], no_obfuscate=list(NO_OBF), no_redact=True)
+    S = type("S" + tag, (SpecSet,), {"p": pt})
+    P = reg(S.p, "point")
+    shape = c["shape"]
+    if shape == "direct":
+        bound = cmd(0)
+        B = reg(bound, "cmd", [c["data"][0]])
+    elif shape in ("first_cf", "first_fc"):
+        c0, f1 = cmd(0), simple_file("alt.txt", context=HostContext)
+        bound = first_of([c0, f1] if shape == "first_cf" else [f1, c0])
+        B = reg(bound, "wrap")
+        for o, k, d in ((c0, "cmd", [c["data"][0]]), (f1, "file", [c["data"][1]])):
+            up[reg(o, k, d)].append(B)
+    elif shape == "nested":
+        c0, f1, c2 = cmd(0), simple_file("alt.txt", context=HostContext), cmd(2)
+        inner_ = first_of([c0, f1])
+        bound = first_of([inner_, c2])
+        B = reg(bound, "wrap")
+        I_ = reg(inner_, "wrap")
+        up[I_].append(B)
+        up[reg(c0, "cmd", [c["data"][0]])].append(I_)
+        up[reg(f1, "file", [c["data"][1]])].append(I_)
+        up[reg(c2, "cmd", [c["data"][2]])].append(B)
+    elif shape == "head_fexec":
+        def names(broker):
+            return [dfile[0], dfile[1]]
+        names.__name__ = "names" + tag
+        datasource(HostContext)(names)
+        fx = foreach_execute(names, script + " %s", context=HostContext)
+        bound = head(fx)
+        B = reg(bound, "wrap")
+        F = reg(fx, "cmd", [c["data"][0], c["data"][1]])
+        up[F].append(B)
+        up[reg(names, "plain")].append(F)
+    else:
+        def argp(broker):
+            return dfile[0]
+        argp.__name__ = "argp" + tag
+        datasource(HostContext)(argp)
+        cwa = command_with_args(script + " %s", argp, context=HostContext)
+        bound = first_of([cwa])
+        B = reg(bound, "wrap")
+        C = reg(cwa, "cmd", [c["data"][0]])
+        up[C].append(B)
+        up[reg(argp, "plain")].append(C)
+    type("I" + tag, (S,), {"p": bound})
+    up[B].append(P)
+    pcls = type("NP" + tag, (Parser,), {"parse_content": lambda self, content: None})
+    parser(S.p)(pcls)
+    PA = reg(pcls, "parser")
+    lines = [world_line_of(comps, True)]
+    impl = ["ok ranked=1"]
+    # ---- registrations
+    log = {}
+    target = {"spec": P, "impl": B, "parser": PA}.get(c["where"])
+    if target is not None:
+        for k, m in c["keys"]:
+            try:
+                add_filter(comps[target], k, m)
+                res = "ok"
+                t = P if target == PA else target
+                log.setdefault(t, {})
+                log[t][k] = max(log[t].get(k, m), m)
+            except Exception as e:
+                res = add_err(e)
+            lines.append("add\t%d\t%d\tL\t%s" % (target, m, enc(k)))
+            impl.append(res)
+
+    def above(i):
+        out = set([i])
+        for p_ in up[i]:
+            out |= above(p_)
+        return out
+
+    def expected(i):
+        d = {}
+        if not c["filterable"]:
+            return []
+        for j in above(i):
+            for k, m in log.get(j, {}).items():
+                d[k] = max(d.get(k, m), m)
+        return sorted(d.items())
+    # ---- evaluate the spec with the real engine
+    broker = dr.Broker()
+    broker[HostContext] = ctx
+    broker["cleaner"] = rig.cleaner
+    broker = dr.run(dr.get_dependency_graph(S.p), broker=broker)
+    fails, tags = [], ["shape:" + shape, "filters:" + c["where"], "point:" + ("filterable" if c["filterable"] else "plain")]
+    seen = set()
+    for i in range(len(comps)):
+        if kind[i] not in ("cmd", "file"):
+            continue
+        exp = expected(i)
+        nofilter = any(isinstance(e, NoFilterException) for e in broker.exceptions.get(comps[i], []))
+        val = broker.get(comps[i])
+        provs = [v for v in (val if isinstance(val, list) else [val]) if isinstance(v, ContentProvider)]
+        if nofilter:
+            lines.append("build\t1\t%d" % i)
+            impl.append("nofilter")
+        elif provs:
+            lines.append("build\t1\t%d" % i)
+            impl.append("ok\t%d\t%s" % (1 if provs[0]._filterable else 0, show_allow(provs[0]._filters)))
+        tags.append("%s:%s" % (kind[i], "refused" if nofilter else "built" if provs else "absent"))
+        contents = []
+        for pr in provs:
+            try:
+                contents.append(list(pr.content))
+            except (ContentException, CalledProcessError):
+                contents.append([])
+        ran = [os.path.exists(df + ".ran") for df in dfile] if kind[i] == "cmd" else []
+        mine = [dfile.index(df) for df in dfile if any(df in (getattr(pr, "cmd", "") or "") for pr in provs)]
+        name = "%s datasource %d of shape %s (filters %s)" % (kind[i], i, shape, c["where"])
+        if c["filterable"] and not exp:
+            if provs:
+                fails.append(("%s: a filterable spec with no filter registered was collected on a host: %r" % (name, contents), None))
+        elif kind[i] == "cmd" and not provs:
+            fails.append(("%s: filters %r are in force (or the spec is not filterable) but nothing was collected" % (name, exp), None))
+        for pr, out, ls in zip(provs, contents, data_of[i]):
+            if exp:
+                bad = content_oracle(name, ls, exp, out, exact=True)
+                lines.append(mline("gr", exp, ls))
+                impl.append(show_lines(out))
+            else:
+                bad = None if out == ls else "%s: not a filterable spec, the whole output must be collected" % name
+            if bad:
+                fails.append((bad + " (filters in force: %r)" % (exp,), None))
+    # "not collected at all": with no filter in force no command of a filterable spec may have run
+    if c["filterable"] and not any(expected(i) for i in range(len(comps)) if kind[i] == "cmd"):
+        ran = [os.path.basename(df) for df in dfile if os.path.exists(df + ".ran")]
+        tags.append("marker:" + ("RAN" if ran else "not-run"))
+        if ran:
+            fails.append(("a filterable spec without filters: the command really ran for %s" % ran, None))
+    else:
+        tags.append("marker:ran" if any(os.path.exists(df + ".ran") for df in dfile) else "marker:none")
+    # ---- the container provider kinds on the deepest command datasource (fake engine: `podman exec <id> <cmd>`)
+    deep = max(i for i in range(len(comps)) if kind[i] == "cmd")
+    exp = expected(deep)
+    for cls_, cmdline in ((ContainerCommandProvider, "%s exec abc %s %s" % (podman, script, dfile[1])),
+                          (ContainerFileProvider, "%s exec abc cat %s" % (podman, dfile[1]))):
+        try:
+            pr = cls_(cmdline, ctx, image="img", ds=comps[deep], cleaner=rig.cleaner)
+            res = "ok\t%d\t%s" % (1 if pr._filterable else 0, show_allow(pr._filters))
+        except NoFilterException:
+            pr, res = None, "nofilter"
+        lines.append("build\t1\t%d" % deep)
+        impl.append(res)
+        tags.append("container:" + res.split("\t")[0])
+        if c["filterable"] and not exp and pr is not None:
+            fails.append(("%s on a filterable spec without filters was built on a host" % cls_.__name__, None))
+        if pr is not None and exp:
+            try:
+                out = list(pr.content)
+            except (ContentException, CalledProcessError):
+                out = []
+            bad = content_oracle(cls_.__name__, c["data"][1], exp, out, exact=True)
+            if bad:
+                fails.append((bad, None))
+            lines.append(mline("gr", exp, c["data"][1]))
+            impl.append(show_lines(out))
+    shutil.rmtree(root, ignore_errors=True)
+    return impl, lines, fails, tags
+
+
 # =========================================================================== corpus / witnesses
 
 def load_corpus():
@@ -1430,6 +1655,7 @@ def run(chk):
     n_load = 400 if quick else 8000
     n_branch = 300 if quick else 6000
     n_hydrate = 150 if quick else 3000
+    n_nested = 200 if quick else 4000
     chk.rule = ("(a) histories of 4-12 add_filter/get_filters/provider-construction operations over a fresh generated "
                 "component graph (1-3 registry points with random filterable/raw flags, 1-2 implementation classes using "
                 "simple_file/simple_command/first_of/shared datasource objects, derived datasources, parsers, combiners, "
@@ -1439,6 +1665,11 @@ def run(chk):
                 "same datasource through TextFileProvider under HostArchiveContext (simple_file and glob_file / multi-output), "
                 "look-ups, further registrations, clean_content / apply_filters / filter_content on the shared dict; "
                 "get_filters of all three components compared with the model after every step; non-trivial = at least two loads; "
+                "(f) nested-host: a registry point (85% filterable) implemented by a direct simple_command, first_of([command, file]) in "
+                "both orders, nested first_of, head(foreach_execute) and first_of([command_with_args]); no filters / filters on the spec / "
+                "the bound implementation / a parser; evaluated by dr.run under HostContext; the commands leave a marker file when they "
+                "run; every nested provider's (_filterable, _filters) or NoFilterException compared with the model's construct, plus "
+                "ContainerCommandProvider / ContainerFileProvider on the deepest command datasource; non-trivial = nested shape; "
                 "(e) hydrate: serialized archives with 2-5 specs of all shapes (simple_file, first_file, simple_command, glob_file, "
                 "foreach_collect, foreach_execute collected by the real dehydrate under HostContext with an OLD filter set; container "
                 "file/command lists and DatasourceProvider as hand-written documents), then different/additional filters registered "
@@ -1462,13 +1693,13 @@ def run(chk):
     open(os.path.join(scratch, "f"), "w").write("x\n")
     rig = ContentRig()
     try:
-        _run(chk, rng, quick, n_hist, n_content, n_direct, n_bad, n_load, n_branch, n_hydrate, scratch, rig)
+        _run(chk, rng, quick, n_hist, n_content, n_direct, n_bad, n_load, n_branch, n_hydrate, n_nested, scratch, rig)
     finally:
         rig.close()
         shutil.rmtree(scratch, ignore_errors=True)
 
 
-def _run(chk, rng, quick, n_hist, n_content, n_direct, n_bad, n_load, n_branch, n_hydrate, scratch, rig):
+def _run(chk, rng, quick, n_hist, n_content, n_direct, n_bad, n_load, n_branch, n_hydrate, n_nested, scratch, rig):
     corpus = load_corpus()
 
     # ---- corpus: regression cases and the known-finding witness
@@ -1476,6 +1707,7 @@ def _run(chk, rng, quick, n_hist, n_content, n_direct, n_bad, n_load, n_branch, 
     load_cases = []
     branch_cases = []
     hydrate_cases = []
+    nested_cases = []
     for c in corpus:
         if c["kind"] == "history":
             hist_cases.append((c["spec"], c["ops"]))
@@ -1488,6 +1720,9 @@ def _run(chk, rng, quick, n_hist, n_content, n_direct, n_bad, n_load, n_branch, 
             chk.witnesses.append(c["file"])
         elif c["kind"] == "hydrate":
             hydrate_cases.append(c)
+            chk.witnesses.append(c["file"])
+        elif c["kind"] == "nested":
+            nested_cases.append(c)
             chk.witnesses.append(c["file"])
         elif c["kind"] == "content":
             impl, model, fails, order = run_content_case(rig, c["lines"], [tuple(x) for x in c["allow"]], with_command=True)
@@ -1535,6 +1770,27 @@ def _run(chk, rng, quick, n_hist, n_content, n_direct, n_bad, n_load, n_branch, 
     out = run_driver("C07", model_all)
     chk.compare("hydrate", cases, impl_all, out)
     chk.sample({"hydrate-case": [dict(shape=x["shape"], files=len(x["files"]), old=x["old"], now=x["now"]) for x in hydrate_cases[-1]["specs"]]})
+
+    # ---- (f) nested command datasources under a HostContext, evaluated by the real engine
+    for _ in range(n_nested):
+        nested_cases.append(gen_nested_case(rng))
+    cases, impl_all, model_all = [], [], []
+    for c in nested_cases:
+        impl, model, fails, tags = run_nested_case(rig, c)
+        clean = dict((k, v) for k, v in c.items() if k not in ("file", "note"))
+        chk.case(("nested", json.dumps(clean, sort_keys=True)), c["shape"] != "direct")
+        for t in tags:
+            chk.count("nested-" + t)
+        for desc, fid in fails:
+            chk.failure(desc, clean, finding=fid)
+        cases.extend([clean] * len(impl))
+        impl_all.extend(impl)
+        model_all.extend(model)
+    out = run_driver("C07", model_all)
+    out = ["\t".join(o.split("\t")[:-1] + [canon_model_allow(o.split("\t")[-1])]) if ln.startswith("build") and o != "nofilter" else o
+           for o, ln in zip(out, model_all)]
+    chk.compare("nested-host", cases, impl_all, out)
+    chk.sample({"nested-case": dict((k, v) for k, v in nested_cases[-1].items() if k != "data")})
 
     # ---- (a) histories
     for _ in range(n_hist):
@@ -1678,6 +1934,20 @@ def replay(data):
                 bad = True
         finally:
             shutil.rmtree(scratch, ignore_errors=True)
+    elif c["kind"] == "nested":
+        rig = ContentRig()
+        try:
+            impl, model, fails, tags = run_nested_case(rig, c)
+            out = run_driver("C07", model)
+            for ln, a, b in zip(model, impl, out):
+                if not ln.startswith("world"):
+                    print("  %-22s impl=%s   model=%s" % (ln[:22].replace("\t", " "), a.replace("\t", " ")[:120], b.replace("\t", " ")[:120]))
+            print("  tags:", " ".join(tags))
+            for desc, fid in fails:
+                print("ORACLE: %s" % desc)
+                bad = True
+        finally:
+            rig.close()
     elif c["kind"] == "hydrate":
         rig = ContentRig()
         try:
